@@ -177,7 +177,8 @@ fn pattern() -> BoxedStrategy<String> {
     let piece = prop_oneof![
         4 => tag2().prop_map(|t| format!("${t}")),
         3 => tag2().prop_map(|t| format!("${{{t}}}")),
-        3 => prop::sample::select(vec!["key", "pod::key", "a b", "k2", "x>", ""]).prop_map(|k| format!("$<{k}>")),
+        // keys that are also tag names: `$foo`, `${foo}` and `$<foo>` are three different questions about one word
+        3 => prop::sample::select(vec!["key", "pod::key", "a b", "k2", "x>", "", "foo", "bar", "dis", "name", "navName", "aB"]).prop_map(|k| format!("$<{k}>")),
         3 => prop::sample::select(vec!["$", "{", "}", "<", ">", " ", "$$", "${", "$<", "$}", "${}", "$<>", "$1", "$_", "$A", "$ab$cd", "é", "→", "-", ".", "\n"]).prop_map(String::from),
         2 => "[a-z]{1}".prop_map(|t| format!("${t} ")),
         3 => "[ a-zA-Z0-9_]{0,6}",
@@ -197,6 +198,8 @@ fn tag_value() -> BoxedStrategy<RVal> {
         4 => gv::ustring(8).prop_map(RVal::Str),
         2 => gv::ref_id().prop_map(|i| RVal::Ref(i, None)),
         2 => (gv::ref_id(), gv::ustring(6)).prop_map(|(i, d)| RVal::Ref(i, Some(d))),
+        // ids as a decoder of another format may hand them over (blanks, slashes, non-ASCII)
+        1 => prop_oneof![gv::ustring(6), prop::sample::select(vec!["Room 101", "a/b", "é", "", " "]).prop_map(String::from)].prop_map(|i| RVal::Ref(i, None)),
         3 => gv::scalar(cfg).prop_filter("non-null", |v| !matches!(v, RVal::Null)),
         1 => prop::collection::vec(gv::scalar(cfg), 0..3).prop_map(RVal::List),
     ]
@@ -207,7 +210,7 @@ fn dis_case() -> BoxedStrategy<DisCase> {
     let display_tags = prop::collection::btree_map(prop::sample::select(DISPLAY_TAGS.to_vec()).prop_map(String::from), prop_oneof![3 => tag_value(), 2 => pattern().prop_map(RVal::Str)], 0..4);
     // the text of an ordinary tag may itself look like a pattern (`$<key>`, `$foo`): substituted text is not scanned again
     let others = prop::collection::btree_map(tag2(), prop_oneof![4 => tag_value(), 1 => pattern().prop_map(RVal::Str), 1 => (gv::ref_id(), pattern()).prop_map(|(i, p)| RVal::Ref(i, Some(p)))], 0..5);
-    let loc = prop::collection::btree_map(prop::sample::select(vec!["key", "pod::key", "a b", "k2", "foo", "notUsed"]).prop_map(String::from), gv::ustring(6), 0..4);
+    let loc = prop::collection::btree_map(prop::sample::select(vec!["key", "pod::key", "a b", "k2", "foo", "bar", "dis", "name", "navName", "aB", "notUsed"]).prop_map(String::from), gv::ustring(6), 0..6);
     bx((display_tags, others, loc, prop::option::of(gv::ustring(5)), pattern(), any::<u8>()).prop_map(|(mut d, o, localized, default, pattern, pick)| {
         for (k, v) in o {
             d.entry(k).or_insert(v);
